@@ -58,6 +58,11 @@ PROPS = {
         "assumptions": ["PARTIAL: the text -> raw tree step (ANTLR recovery) is explored, not proved; the theorems quantify over all raw trees without the nil shapes of tree_safe"],
         "trusted_base": ["modelled rather than verified: analysis/check.go, hover.go, goto_definition.go, document_symbols.go"],
     },
+    "C19": {
+        "rule": "group histories: random request histories (3-32 requests) over 3 URIs x 4 texts (valid, name-edited, token-edited, empty) fed to lsp.Handle with stdout captured (publishDiagnostics), thorough adds ALL histories of length <= 3 over a 14-request alphabet; group navigation: one generated script opened, then hover AND definition at every position (line, 0..length+1). Every response compared with the server model, with the specification (fresh analysis of the latest text) and, for navigation, with the independent traversal of Spec/Names. Non-trivial: every case; distinct by hash.",
+        "assumptions": ["LSP wire framing (server.go) and JSON decoding of requests are trusted glue; positions are sent as (line, character) pairs", "at the last character of a range either neighbour's answer is accepted (Range.Contains is end-inclusive)"],
+        "trusted_base": ["modelled rather than verified: lsp/handlers.go, analysis/hover.go, goto_definition.go, document_symbols.go, check.go"],
+    },
     "C03": {
         "rule": SCRIPTS_RULE + "profile: one fixed-amount send (optionally preceded by saves). Non-trivial: source and destination trees evaluate and the send reaches the draw; distinct by hash of the case.",
         "assumptions": ["Spec/Greedy.v (draw_exact) is what 'the sources, drawn in their declared order within their balances, caps and overdraft limits, can supply' means",
